@@ -33,6 +33,8 @@ func main() {
 		cmdVerify(os.Args[2:])
 	case "check":
 		os.Exit(cmdCheck(os.Args[2:]))
+	case "replay":
+		os.Exit(cmdReplay(os.Args[2:]))
 	default:
 		fmt.Fprintln(os.Stderr, "unknown command", os.Args[1])
 		os.Exit(2)
@@ -75,8 +77,9 @@ func cmdVerify(args []string) {
 	kinds := fs.String("kinds", "", "only obligations of these kinds (comma separated)")
 	idMatch := fs.String("match", "", "only obligations whose id contains this")
 	trace := fs.Bool("trace", false, "for refuted obligations print the branch decisions of the counterexample")
+	repo := fs.String("repo", "/repo", "repository (a scratch copy for self-tests)")
 	fs.Parse(args)
-	e := mustLoad("/repo", "/verif/spec")
+	e := mustLoad(*repo, "/verif/spec")
 	var obls []*Obligation
 	for _, ct := range e.allCts {
 		f := e.ctFunc[ct]
